@@ -4,7 +4,7 @@ cd /verif || exit 2
 python3 tools/gen_manifest.py >/dev/null
 python3 tools/inventory.py >/dev/null 2>&1
 # --relock: accept the current assumption scan and obligation counts as the reviewed baseline (specs/assumptions.lock)
-if [ "$1" = "--relock" ]; then VERIF_RELOCK=1 ./check all > /tmp/precommit.log 2>&1; fi
+if [ "$1" = "--relock" ]; then python3 tools/weave.py --relock-anchors /repo >/dev/null 2>&1; VERIF_RELOCK=1 ./check all > /tmp/precommit.log 2>&1; fi
 ./check all > /tmp/precommit.log 2>&1; rc=$?
 grep -E "^\[|VIOLATION|UNDECIDED|VACUOUS|KNOWN" /tmp/precommit.log | cut -c1-220
 python3-vt - <<'PY'
